@@ -84,7 +84,33 @@ func ruleDimensionTyping(c *eng.Ctx) {
 				continue
 			}
 			if nn, known := eng.ErrValueNonNil(vals[4]); !known || nn {
-				continue
+				// a named error result in a cell: this is the success return when the cell was last found nil
+				okCell := false
+				if ld, isLd := vals[4].(*ssa.UnOp); isLd && ld.Op == token.MUL {
+					if cell, isCell := ld.X.(*ssa.Alloc); isCell {
+						storedHere := false
+						for _, in := range r.Block().Instrs {
+							if st, isSt := in.(*ssa.Store); isSt && st.Addr == ssa.Value(cell) {
+								storedHere = true
+							}
+						}
+						okCell = !storedHere && eng.GuardedBy(fn, r.Block(), func(f eng.Fact) bool {
+							op, x, y, ok := f.Cmp()
+							if !ok || op != token.EQL {
+								return false
+							}
+							for _, pair := range [][2]ssa.Value{{x, y}, {y, x}} {
+								if l2, ok := pair[0].(*ssa.UnOp); ok && l2.X == ssa.Value(cell) && eng.IsNilConst(pair[1]) {
+									return true
+								}
+							}
+							return false
+						})
+					}
+				}
+				if !okCell {
+					continue
+				}
 			}
 			if len(calls) != 2 {
 				continue
@@ -92,7 +118,26 @@ func ruleDimensionTyping(c *eng.Ctx) {
 			want := [][2]int{{0, 0}, {0, 1}, {1, 0}, {1, 1}} // (call index, result index)
 			good := true
 			for i, w := range want {
-				ex, isEx := vals[i].(*ssa.Extract)
+				v := vals[i]
+				// a named result kept in a cell (a deferred function may reset it on failure): the value the
+				// function body stores into the cell
+				if ld, isLd := v.(*ssa.UnOp); isLd && ld.Op == token.MUL {
+					if cell, isCell := ld.X.(*ssa.Alloc); isCell {
+						var stored []ssa.Value
+						for _, r := range *cell.Referrers() {
+							if st, isSt := r.(*ssa.Store); isSt && st.Addr == ssa.Value(cell) {
+								if _, isZero := st.Val.(*ssa.Const); isZero {
+									continue
+								}
+								stored = append(stored, st.Val)
+							}
+						}
+						if len(stored) == 1 {
+							v = stored[0]
+						}
+					}
+				}
+				ex, isEx := v.(*ssa.Extract)
 				if !isEx || ex.Tuple != calls[w[0]].Value() || ex.Index != w[1] {
 					good = false
 				}
